@@ -72,8 +72,18 @@ def raise_shape(tb, q, exc):
 def related_shape(tb, t, q):
     direction = 'a subtype of the query' if below(tb, t, q, 'must') else 'a supertype of the query'
     same = t[0] == 'c' and q[0] == 'c' and t[1] == q[1]
-    return 'result is %s; %s; query %s' % (direction, 'same constructor' if same else 'different class',
-                                          'has projections' if has_projection(q) else 'has no projection')
+    if q[0] == 'c' and not q[2]:
+        qk = 'is a simple (non-generic) type'
+    elif q[0] == 'v':
+        qk = 'is a type variable'
+    else:
+        qk = 'is parameterized and ' + ('has projections' if has_projection(q) else 'has no projection')
+    from mc.props.c10 import syntactic_supertypes
+    nominal = False
+    if t[0] == 'c' and q[0] == 'c':
+        nominal = (t in syntactic_supertypes(tb, q)) or (q in syntactic_supertypes(tb, t))
+    return 'result is %s (%s); %s; query %s' % (direction, 'a nominal one' if nominal else 'only through variance/projections',
+                                                'same constructor' if same else 'different class', qk)
 
 
 def check_table(sk, lang, tier, found, stats, cap):
@@ -84,6 +94,9 @@ def check_table(sk, lang, tier, found, stats, cap):
     roles = conv.roles
     cv = rconv.TermConv(tb, {type(v): k for k, v in roles.items()})
     atoms = [universe.C('Number'), universe.C('Integer'), universe.C('String'), universe.C('P'), universe.C('Q')]
+    for extra in ('D', 'D2'):
+        if any(n == extra for n, _, _ in sk.classes):
+            atoms.append(universe.C(extra))
     U = universe.enumerate_types(tb, sk, atoms, 1)
     if tier == 'thorough':
         U = list(dict.fromkeys(U + universe.enumerate_types(tb, sk, atoms[:2] + atoms[3:4], 2, stars=False, cap=150)))
@@ -208,7 +221,7 @@ def _work(arg):
     import src.ir.ast  # noqa
     sks, _ = universe.skeletons(tier)
     if tier == 'quick':
-        sks = sks[::8]
+        sks = universe.quick_core(sks)
     found, stats = {}, {}
     for i in idxs:
         check_table(sks[i], lang, tier, found, stats, cap)
@@ -220,7 +233,7 @@ def run(tier, seed, jobs):
     res = Result(PROP, tier, seed, level='model_checking')
     sks, rejected = universe.skeletons(tier)
     if tier == 'quick':
-        sks = sks[::8]            # fixed subset of the quick skeleton list (7 tables)
+        sks = universe.quick_core(sks)     # fixed selection of the quick skeleton list
     cap = 400 if tier == 'quick' else 30000
     langs = ('kotlin',) if tier == 'quick' else ('kotlin', 'java', 'groovy', 'scala')
     n = len(sks)
